@@ -2,6 +2,6 @@
     the runner step to OCaml. [ExtrOcamlBasic] only: [positive]/[N]/[nat] stay
     Coq datatypes in OCaml; no [Extract Constant] is written by hand. *)
 From Coq Require Extraction ExtrOcamlBasic.
-From Bourse Require Import Model.Types Model.Book Model.Obs Model.Codec Spec.RefBook Spec.Monitors Spec.Runner.
+From Bourse Require Import Model.Types Model.Book Model.Obs Model.Codec Model.Rng Model.Env Model.EnvObs Spec.RefBook Spec.Monitors Spec.Runner Spec.EnvRunner.
 Extraction Language OCaml.
-Extraction "model.ml" rs_init rs_step enc_report valid_op rs_valid rs_ended.
+Extraction "model.ml" rs_init rs_step enc_report valid_op rs_valid rs_ended es_init es_step_fn es_valid es_ended.
